@@ -255,7 +255,10 @@ def run(ctx):
     pinned = [(N(("HAdt", ids["CoL"]), [a_]), N(("HAdt", ids["CoL"]), [b_])),
               (N(("HRef", "Not"), [a_, L.U32]), N(("HRef", "Not"), [b_, L.U32])),
               (N(("HFnPtr", 0, "AbiRust", "Safe", False), [N(("HRef", "Not"), [a_, L.U32]), L.U32]), N(("HFnPtr", 0, "AbiRust", "Safe", False), [N(("HRef", "Not"), [b_, L.U32]), L.U32])),
-              (L.U32, L.BOOL)]
+              (L.U32, L.BOOL),
+              # two unknown lifetimes at a contravariant / covariant position (found red by this check, fixed in 9147c48)
+              (N(("HAdt", ids["ContraL"]), [L.lt_var(0)]), N(("HAdt", ids["ContraL"]), [L.lt_var(1)])),
+              (N(("HRef", "Not"), [L.lt_var(1), L.U32]), N(("HRef", "Not"), [L.lt_var(0), L.U32]))]
     pairs = pinned + pairs
     solver_cases, meta = [], []
     for (a, b) in pairs:
